@@ -550,7 +550,8 @@ Section Proofs2.
     destruct (herm && negb (teqb keq Ls 2 tk (tT (tconj tk)))) eqn:E2; [exact I|].
     destruct (herm && negb (teqb keq Ls 4 vi (ttranspose [2; 3; 0; 1]%nat (tconj vi)))) eqn:E3; [exact I|].
     destruct (varch && negb (teqb keq Ls 4 vi (ttranspose [1; 0; 3; 2]%nat vi))) eqn:E4; [exact I|].
-    cbn [m_c m_herm m_varch]. repeat split; try assumption; try reflexivity.
+    cbn [m_c m_herm m_varch].
+    split; [exact EN|]. split; [reflexivity|]. split; [reflexivity|]. split; [reflexivity|]. split.
     - intros ->. cbn [andb] in E1, E2, E3. apply negb_false_iff in E1, E2, E3. split; [exact E1|].
       unfold teqb in E2, E3. rewrite forallb_forall in E2, E3. split.
       + intros i j Hi Hj.
